@@ -92,7 +92,8 @@ type thread struct {
 	fin     bool
 	result  selResult // filled by a sender for passive completion
 	passiv  bool
-	ops     int // operations performed so far (with the name, identifies the thread's control point)
+	exited  chan struct{} // closed when the thread\'s goroutine has returned
+	ops     int           // operations performed so far (with the name, identifies the thread's control point)
 	spawned int
 	objn    int
 }
@@ -130,7 +131,7 @@ func Run(prefix []int, o Options, body func()) *Exec {
 	t := sc.newThread("main")
 	sc.cur = t
 	sc.wg.Add(1)
-	go func() { defer sc.wg.Done(); sc.runThread(t, body) }()
+	go func() { defer sc.wg.Done(); defer close(t.exited); sc.runThread(t, body) }()
 	<-sc.done
 	ex := &Exec{Points: sc.points, Panics: sc.panics, Deadlock: sc.dead, Horizon: sc.horizon, Steps: sc.steps, Diverged: sc.diverge, PrunedAt: sc.pruned}
 	for _, th := range sc.threads {
@@ -142,15 +143,20 @@ func Run(prefix []int, o Options, body func()) *Exec {
 			ex.Blocked = append(ex.Blocked, th.name+":"+l)
 		}
 	}
-	// release parked goroutines
+	// release the parked goroutines ONE AT A TIME: each unwinds (running the deferred functions of the code
+	// under test) alone, as during the execution, never in parallel with another
 	sc.abort = true
 	for _, th := range sc.threads {
-		if !th.fin {
-			select {
-			case th.wake <- struct{}{}:
-			default:
-			}
+		select {
+		case <-th.exited:
+			continue
+		default:
 		}
+		select {
+		case th.wake <- struct{}{}:
+		default:
+		}
+		<-th.exited
 	}
 	sc.wg.Wait()
 	s = nil
@@ -165,7 +171,7 @@ func (sc *sched) finish() {
 }
 
 func (sc *sched) newThread(name string) *thread {
-	t := &thread{id: sc.nextID, name: name, wake: make(chan struct{}, 1)}
+	t := &thread{id: sc.nextID, name: name, wake: make(chan struct{}, 1), exited: make(chan struct{})}
 	sc.nextID++
 	sc.threads = append(sc.threads, t)
 	return t
@@ -338,6 +344,7 @@ func GoNamed(name string, f func()) {
 	sc.wg.Add(1)
 	go func() {
 		defer sc.wg.Done()
+		defer close(t.exited)
 		<-t.wake
 		if sc.abort {
 			return
@@ -862,6 +869,7 @@ func (sc *sched) ensureClock() {
 	sc.wg.Add(1)
 	go func() {
 		defer sc.wg.Done()
+		defer close(c.exited)
 		<-c.wake
 		if sc.abort {
 			return
